@@ -2,12 +2,19 @@
 """Durability family: C09 (acknowledged writes survive with SyncWrites), C10 (recovery yields a
 prefix-consistent state), C11 (contents change only through new writes).  DESIGN.md section 5.
 
-M1  TLC checks spec/Durability/Durability.tla (what reaches the disk and when; process crash anywhere).
-M2  TLC -simulate generates workloads (batches, rotations, flushes, compactions, GC) from that spec.
+M1  TLC checks spec/Durability/Durability.tla (what reaches the disk and when, including the value log:
+    files durable at append, head logged lazily, reconcileManifest, GC rewrite + file removal; process
+    crash anywhere, several crash/reopen cycles, maintenance of the recovered database).
+M2  TLC -simulate generates workloads (batches over explicit keys, rotations, stalled flushes, flush
+    waits, compactions, GC passes) from that spec. Workloads are SELECTED by facts the real engine reports
+    in a listing run (value-log pointers, file lists, rotations): every run contains a stalled flush with
+    two sealed memtables, a value overwritten into a later value-log file at a lower offset, and a dead
+    value-log file in one bucket next to a live file of the same number in another.
     Each workload runs in a child process through the repo's FaultFS; the crash points (every mutating
     file operation + the crash.* yield points) are counted, then the child is re-run once per crash point
     and exits right there (a real process crash); a second child reopens the directory, dumps it, runs
-    flush / every compaction kind / GC / close+reopen and dumps again.
+    flush / every compaction kind / two GC passes / close+reopen / filler writes that seal the value-log
+    files + two more GC passes / close+reopen, and dumps after every stage.
 M3  TLC validates every (workload, crash point) trace against spec/Durability/RecoveryPropTrace.tla.
 """
 import json, os, sys, re, subprocess, shutil
@@ -17,7 +24,9 @@ from vlib import *
 from vpar import validate_traces_parallel
 
 KEYS = ["k1", "k2", "k3", "k4"]
+STAGES = ("dump_flush", "dump_compact", "dump_maint", "dump_gc2", "dump_reopen", "dump_seal_gc", "dump_reopen2")
 OPMAP = {"Rotate": {"op": "Rotate"}, "FlushWait": {"op": "FlushWait"},
+         "HoldFlush": {"op": "HoldFlush"}, "ReleaseFlush": {"op": "ReleaseFlush"},
          "CompactL0": {"op": "Compact", "kind": "l0", "base": 1},
          "IngestDrain": {"op": "Compact", "kind": "ingest-drain", "level": 1},
          "GC": {"op": "GC"}}
@@ -27,7 +36,7 @@ def gen_hists(ctx, num, depth, seed):
     src = open(os.path.join(ctx._specdir(), "Gen_Durability.cfg")).read()
     name = "Gen_Durability_%d.cfg" % depth
     open(os.path.join(ctx._specdir(), name), "w").write(re.sub(r"MaxHist = \d+", "MaxHist = %d" % depth, src))
-    r = ctx.tlc_or_undecided("Durability", name, workers=1, simulate="num=%d" % num, depth=depth + 12, seed=seed, timeout=600)
+    r = ctx.tlc_or_undecided("Durability", name, workers=1, simulate="num=%d" % num, depth=8 * depth, seed=seed, timeout=600)
     seen, out = set(), []
     for m in re.finditer(r'<<"SCHED", "(.*)">>', r.out):
         s = m.group(1).encode().decode("unicode_escape")
@@ -36,20 +45,80 @@ def gen_hists(ctx, num, depth, seed):
     return out
 
 
-def make_workload(ctx, wid, hist, cfg, mode, par=False):
+def make_workload(ctx, wid, hist, cfg, mode, par=False, pdel=0.2):
+    """TLC chose the operations and the keys of every batch; values are numbered here. Plain mode writes one
+    key per operation, so a multi-key batch becomes consecutive single writes (par: issued concurrently)."""
     ops, n = [], 0
     for h in hist:
         if h["op"] == "Write":
-            size = h["n"] if (mode == "txn" or par) else 1
-            ks = ctx.rng.sample(KEYS, min(size, len(KEYS)))
+            ks = [KEYS[(k - 1) % len(KEYS)] for k in h.get("ks") or ctx.rng.sample(range(1, len(KEYS) + 1), min(h["n"], len(KEYS)))]
             ws = []
             for k in ks:
                 n += 1
-                ws.append({"k": k, "v": "" if ctx.rng.random() < 0.2 else "w%d" % n})
-            ops.append({"op": "Write", "w": ws})
+                ws.append({"k": k, "v": "" if ctx.rng.random() < pdel else "w%d" % n})
+            if mode == "txn" or par:
+                ops.append({"op": "Write", "w": ws})
+            else:
+                ops += [{"op": "Write", "w": [w]} for w in ws]
         elif h["op"] in OPMAP:
             ops.append(dict(OPMAP[h["op"]]))
     return {"id": wid, "cfg": cfg, "mode": mode, "par": par, "keys": KEYS, "ops": ops}
+
+
+def shape_tags(wl, evs):
+    """Facts about one complete (crash-free) run, as reported by the real engine in listing mode:
+      held2   a flush was stalled while two further memtable rotations happened and a write was accepted
+              after the second one (two sealed memtables, the older one not installed)
+      lower   the current value of some key sits in a LATER value-log file at an offset NOT ABOVE that of
+              an earlier, superseded value of the key whose (sealed) file still exists at the end
+      deadlive some bucket has a sealed value-log file holding no current value while another bucket's file
+              of the same number holds one
+    """
+    tags = set()
+    ops = wl["ops"]
+    # held2
+    held_at, rot_at_hold = None, 0
+    rot = 0
+    for e in evs:
+        if e["e"] in ("Accept", "Ack"):
+            rot = e.get("rot", rot)
+            i = e["i"]
+            hold = None
+            for j in range(i, -1, -1):
+                if ops[j]["op"] == "HoldFlush":
+                    hold = j; break
+                if ops[j]["op"] in ("ReleaseFlush", "FlushWait", "Reopen"):
+                    break
+            if hold is None:
+                held_at = None
+            else:
+                if held_at != hold:
+                    held_at, rot_at_hold = hold, rot
+                if e["e"] == "Accept" and rot - rot_at_hold >= 2:
+                    tags.add("held2")
+    # value-log layout
+    hist, cur, files, active = {}, {}, {}, {}
+    for e in evs:
+        if e["e"] == "L":
+            for k, p in (e.get("ptrs") or {}).items():
+                if p:
+                    hist.setdefault(k, []).append(tuple(p)); cur[k] = tuple(p)
+                else:
+                    cur.pop(k, None)
+            files, active = e["files"], e["active"]
+        elif e["e"] == "G":
+            files = e["files"]
+    exists = {(int(b), f) for b, fs in files.items() for f in fs}
+    act = {int(b): f for b, f in active.items()}
+    for k, p in cur.items():
+        for q in hist.get(k, []):
+            if q[0] == p[0] and q[1] < p[1] and p[2] <= q[2] and (q[0], q[1]) in exists and q[1] < act.get(q[0], 0):
+                tags.add("lower")
+    live = {(p[0], p[1]) for p in cur.values()}
+    for (b, f) in exists:
+        if f < act.get(b, 0) and (b, f) not in live and any(b2 != b and f2 == f for (b2, f2) in live):
+            tags.add("deadlive")
+    return tags
 
 
 def option_sets(pid):
@@ -93,6 +162,13 @@ def run_point(binp, base, wl_path, n):
         return {"n": n, "error": "work exit %d: %s" % (p.returncode, p.stderr[-800:])}
     evs = [json.loads(l) for l in open(tr)]
     crashed = p.returncode == 77
+    before = {}
+    vdir = os.path.join(db, "vlog")
+    if os.path.isdir(vdir):
+        for b in sorted(os.listdir(vdir)):
+            m = re.search(r"(\d+)$", b)
+            if m and os.path.isdir(os.path.join(vdir, b)):
+                before[str(int(m.group(1)))] = sorted(int(f.split(".")[0]) for f in os.listdir(os.path.join(vdir, b)) if f.endswith(".vlog"))
     p2 = subprocess.run([binp, "recover", "-dir", db, "-wl", wl_path, "-out", rec],
                         stdout=subprocess.DEVNULL, stderr=subprocess.PIPE, text=True, timeout=120)
     if p2.returncode != 0 or not os.path.exists(rec):
@@ -100,7 +176,7 @@ def run_point(binp, base, wl_path, n):
     else:
         res = json.load(open(rec))
     shutil.rmtree(d, ignore_errors=True)
-    return {"n": n, "crashed": crashed, "events": evs, "rec": res}
+    return {"n": n, "crashed": crashed, "events": evs, "rec": res, "vbefore": before}
 
 
 def to_trace(pid, wl, pt):
@@ -117,8 +193,9 @@ def to_trace(pid, wl, pt):
     blank = {k: "ERR:not opened" for k in wl["keys"]}
     t.append({"e": "Recovered", "open": bool(rec.get("open")), "dump": rec.get("dump1") or blank})
     if pid == "C11" and rec.get("open"):
-        for what in ("dump_flush", "dump_maint", "dump_reopen"):
-            t.append({"e": "Post", "what": what, "dump": rec.get(what) or blank})
+        for what in STAGES:
+            if what in rec or what in ("dump_flush", "dump_maint", "dump_reopen"):
+                t.append({"e": "Post", "what": what, "dump": rec.get(what) or blank})
     return t
 
 
@@ -203,34 +280,116 @@ def gc_inversion_recovered(wl, pt, pev):
     return bool(diff) and all(pev["dump"].get(k) in older.get(k, set()) for k in diff)
 
 
+def relocation_tie(wl, pt, pev):
+    """Witness of finding C11-gc-relocation-tie (root cause C01-ingest-tie, Engine family): value-log GC
+    relocated a value, so the key is held under ONE version by two sources; after a compaction the lookup
+    consults the older one, whose pointer leads into a value-log file that GC has dropped since. Shadowed,
+    not lost: at the FIRST stage where the key fails, the LSM itself (lsm.VerifLocate) still holds, behind
+    the failing record and under the same version, a record whose pointer resolves. Every differing key
+    must show that; a key whose only records are unreadable (a genuinely lost value) is never excused."""
+    rec = pt["rec"] or {}
+    if not wl["cfg"].get("vlog"):
+        return False
+    order = ("dump1",) + STAGES
+    stage = "dump1" if pev["e"] == "Recovered" else pev.get("what")
+    if stage not in order:
+        return False
+    base = rec.get("dump1") or {}
+    diff = [k for k in wl["keys"] if pev["dump"].get(k) != base.get(k)] if pev["e"] == "Post" else \
+           [k for k in wl["keys"] if str(pev["dump"].get(k, "")).startswith("ERR:")]
+    if not diff:
+        return False
+    for k in diff:
+        if not str(pev["dump"].get(k, "")).startswith("ERR:value log file"):
+            return False
+        first = next((st for st in order[: order.index(stage) + 1] if str((rec.get(st) or {}).get(k, "")).startswith("ERR:")), None)
+        srcs = ((rec.get("where_" + first) or {}).get(k) or []) if first else []
+        if len(srcs) < 2 or srcs[0].get("ok") is not False:
+            return False
+        if not any(x.get("ver") == srcs[0].get("ver") and x.get("ok") is True and not x.get("del") for x in srcs[1:]):
+            return False
+    return True
+
+
 def run(ctx):
     pid, quick = ctx.pid, ctx.tier == "quick"
     m1 = []
-    for cfg in ("MC_Durability.cfg", "MC_Durability_nosync.cfg"):
-        r = ctx.tlc_or_undecided("Durability", cfg, timeout=900, coverage=not quick)
+    green = ["MC_Durability.cfg", "MC_Durability_nosync.cfg"] + (["MC_Durability_vlogq.cfg"] if quick else ["MC_Durability_vlog.cfg", "MC_Durability_vlog_nosync.cfg"])
+    for cfg in green:
+        r = ctx.tlc_or_undecided("Durability", cfg, timeout=3000, coverage=not quick, workers=2 if quick else None)
         if r.violated:
             raise Undecided("M1: Durability.tla violates %s under %s\n%s" % (r.violated, cfg, r.out[-2000:]))
         m1.append(r)
-    ctx.log("M1: %s" % ", ".join("%d distinct" % r.distinct for r in m1))
-    hists = gen_hists(ctx, 40 if quick else 300, 10, ctx.seed * 100 + 1) + gen_hists(ctx, 20 if quick else 200, 16, ctx.seed * 100 + 2)
+    ctx.log("M1: %s" % ", ".join("%s %d distinct" % (c, r.distinct) for c, r in zip(green, m1)))
+    # the model must tell the repaired design from the defective ones: each of these configurations switches
+    # one repair (or the single flush worker) off and has to violate its property
+    red = {}
+    if not quick:
+        for cfg, inv in (("MC_Durability_gcnosync.cfg", "PointersResolve"), ("MC_Durability_gcnotpast.cfg", "ContentsStable"), ("MC_Durability_2workers.cfg", None)):
+            r = ctx.tlc("Durability", cfg, timeout=900, workers=2)
+            if not r.violated or (inv and r.violated != inv):
+                raise Undecided("M1: %s should violate %s, got %s\n%s" % (cfg, inv or "a property", r.violated, r.out[-1500:]))
+            red[cfg] = r.violated
+        ctx.log("M1 (defective designs rejected): %s" % red)
+    hists = gen_hists(ctx, 60 if quick else 300, 10, ctx.seed * 100 + 1) + gen_hists(ctx, 30 if quick else 200, 16, ctx.seed * 100 + 2)
     ctx.rng.shuffle(hists)
-    # a third of the workloads should seal two memtables without waiting for the flush in between
-    # (two flush tasks in flight, WAL segments of both still needed)
-    def double_seal(h):
-        ops = [x["op"] for x in h]
-        for i, o in enumerate(ops):
-            if o == "Rotate":
-                rest = ops[i + 1:]
-                if "Rotate" in rest and "Write" in rest[:rest.index("Rotate")] and "FlushWait" not in rest[:rest.index("Rotate")]:
-                    return True
-        return False
-    ds = [h for h in hists if double_seal(h)]
-    other = [h for h in hists if not double_seal(h)]
-    hists = [x for pair in zip(other, ds + other) for x in pair][: len(hists)] if ds else hists
     opts = option_sets(pid)
     nwl = 6 if quick else 40
-    wls = []
-    for i, h in enumerate(hists[:nwl]):
+    binp = ctx.build("crash")
+    base = ctx.mkdtemp("crash")
+
+    def listing(wl):
+        wp = os.path.join(base, "wl%d.json" % wl["id"])
+        json.dump(wl, open(wp, "w"))
+        shutil.rmtree(os.path.join(base, "count%d" % wl["id"]), ignore_errors=True)
+        full = run_point(binp, os.path.join(base, "count%d" % wl["id"]), wp, 0)
+        if "error" in full:
+            raise Undecided("workload %d does not run: %s" % (wl["id"], full["error"]))
+        return wp, full
+
+    # Half of the generated workloads are chosen for a SHAPE, judged on what the real engine reports for a
+    # complete run (shape_tags): a stalled flush with two younger sealed memtables; a value superseded by one
+    # in a later value-log file at a lower offset; a dead value-log file next to a live one of the same number
+    # in another bucket. The other half rotates through the option sets as before.
+    S = True if pid == "C09" else ctx.seed % 2 == 0
+    SHAPED = {0: ("held2", {"mem": "skiplist", "sync": S, "memsize": 420}, "txn", 0.2),
+              1: ("lower", {"mem": "art", "sync": not S or pid == "C09", "vlog": True, "buckets": 1, "vlogsize": 300, "vallen": 90}, "plain", 0.1),
+              2: ("deadlive", {"mem": "skiplist", "sync": S, "vlog": True, "buckets": 3, "vlogsize": 300, "vallen": 90}, "plain", 0.1)}
+    def plausible(tag, h):
+        ops = [x["op"] for x in h]
+        if tag == "held2":
+            if "HoldFlush" not in ops:
+                return False
+            rest = ops[ops.index("HoldFlush") + 1:]
+            end = min([rest.index(o) for o in ("ReleaseFlush", "FlushWait") if o in rest] or [len(rest)])
+            return sum(x.get("n", 0) for x in h[ops.index("HoldFlush") + 1:][:end] if x["op"] == "Write") >= 6
+        return sum(x.get("n", 0) for x in h if x["op"] == "Write") >= 8
+    pool = list(hists)
+    wls, prepared, shapes = [], {}, {}
+    for i in range(nwl):
+        if i % 6 in SHAPED and pool:
+            tag, cfg, mode, pdel = SHAPED[i % 6]
+            cands = [h for h in pool if plausible(tag, h)][: (8 if quick else 12)]
+            got, tries = None, 0
+            for h in cands:
+                tries += 1
+                wl = make_workload(ctx, i, h, dict(cfg), mode, pdel=pdel)
+                wp, full = listing(wl)
+                if tag in shape_tags(wl, full["events"]):
+                    got = (wl, wp, full, h); break
+            if got is None and cands:      # shape not reached: keep the last candidate, the evidence says so
+                got = (wl, wp, full, h)
+            if got is not None:
+                wl, wp, full, h = got
+                pool.remove(h)
+                wl["shape"] = tag
+                wls.append(wl); prepared[wl["id"]] = (wp, full)
+                k = shapes.setdefault(tag, {"wanted": 0, "reached": 0, "tries": 0})
+                k["wanted"] += 1; k["tries"] += tries; k["reached"] += tag in shape_tags(wl, full["events"])
+                continue
+        if not pool:
+            break
+        h = pool.pop(0)
         cfg = opts[(i + ctx.seed) % len(opts)]
         mode = "txn" if i % 3 != 2 else "plain"
         # C09 speaks about acknowledged writes only, so its plain workloads issue the writes of one
@@ -239,26 +398,25 @@ def run(ctx):
         if par:
             mode = "plain"
         wls.append(make_workload(ctx, i, h, cfg, mode, par=par))
+    ctx.log("M2 shapes: %s" % shapes)
     # recorded finding / regression workloads stay in the set
     for rp in json.load(open(os.path.join(VERIF, "findings", "durability_replays.json"))):
         if pid in rp["properties"]:
-            w = dict(rp["workload"]); w["id"] = len(wls); w["replay"] = rp["id"]
+            w = dict(rp["workload"]); w["id"] = 1000 + len(wls); w["replay"] = rp["id"]
             wls.append(w)
-    binp = ctx.build("crash")
-    base = ctx.mkdtemp("crash")
-    per_wl_cap = 60 if quick else 100000
+    # quick: 40 sampled crash points per generated workload, 24 per recorded finding / regression workload (the
+    # sampler keeps value-log, manifest, removal and crash.* points first); thorough: every point
+    per_wl_cap = 40 if quick else 100000
+    replay_cap = 24 if quick else 100000
     jobs, counts = [], {}
     for wl in wls:
-        wp = os.path.join(base, "wl%d.json" % wl["id"])
-        json.dump(wl, open(wp, "w"))
-        full = run_point(binp, os.path.join(base, "count%d" % wl["id"]), wp, 0)
-        if "error" in full:
-            raise Undecided("workload %d does not run: %s" % (wl["id"], full["error"]))
+        wp, full = prepared[wl["id"]] if wl["id"] in prepared else listing(wl)
         total = [e for e in full["events"] if e["e"] == "Done"][0]["points"]
         counts[wl["id"]] = total
         names = [e["at"] for e in full["events"] if e["e"] == "P"]
         full["events"] = [e for e in full["events"] if e["e"] != "P"]
-        pts = pick_points(ctx, names, per_wl_cap) if len(names) == total else list(range(1, total + 1))[:per_wl_cap]
+        cap = replay_cap if "replay" in wl else per_wl_cap
+        pts = pick_points(ctx, names, cap) if len(names) == total else list(range(1, total + 1))[:cap]
         jobs.append((wl, wp, None, full))
         for n in pts:
             jobs.append((wl, wp, n, None))
@@ -298,6 +456,11 @@ def run(ctx):
     rejected = validate_traces_parallel(ctx, "RecoveryPropTrace", "RecoveryPropTrace.cfg", traces, timeout=1800, chunk=800)
     ctx.log("M3: %d crash traces validated, %d mismatches" % (len(traces), len(rejected)))
     known = {f["id"]: f for f in ctx.load_known()}
+    # the family's own fragment is the source of the merged known_findings.json (bin/mkmanifest): read it too,
+    # so that an entry added here is honoured before the merged file has been regenerated
+    for f in json.load(open(os.path.join(VERIF, "findings", "known.d", "durability.json"))).get("findings", []):
+        if f.get("property") == pid and f.get("status", "open") == "open":
+            known.setdefault(f["id"], f)
     hits, reported = {}, set()
     for (ti, line, pev, want) in rejected:
         wl, pt = results[ti]
@@ -306,6 +469,8 @@ def run(ctx):
             cls = "gc-version-inversion"
         if pev["e"] == "Recovered" and cls is None and gc_inversion_recovered(wl, pt, pev):
             cls = "gc-version-inversion"
+        if cls is None and pev["e"] in ("Recovered", "Post") and (pev["e"] == "Post" or pev.get("open")) and relocation_tie(wl, pt, pev):
+            cls = "gc-relocation-tie"
         fid = "%s-%s" % (pid, cls) if cls else None
         if fid and fid in known:
             if fid not in hits:
@@ -340,6 +505,24 @@ def run(ctx):
                 k = e["at"].split(":")[0] + ":" + re.sub(r"\d+", "N", e["at"].split(":")[-1])
                 kinds[k] = kinds.get(k, 0) + 1
     nontriv = {(wl["id"], pt["n"]) for wl, pt in results if pt.get("crashed") and any(e["e"] == "Ack" for e in pt["events"])}
+    # value-log files before / after recovery and maintenance (facts from the file system and the engine)
+    vstat = {"images_with_value_log": 0, "open_removed_files": 0, "gc_pass_dropped_file": 0, "gc_pass_reinserted_values": 0,
+             "reopen_after_gc_removed_files": 0, "seal_stage_ran": 0}
+    for wl, pt in results:
+        rec = pt.get("rec") or {}
+        vf = rec.get("vfiles") or {}
+        if not wl["cfg"].get("vlog") or not vf:
+            continue
+        vstat["images_with_value_log"] += 1
+        before = pt.get("vbefore") or {}
+        if any(set(before.get(b, [])) - set(fs) for b, fs in (vf.get("open") or {}).items()):
+            vstat["open_removed_files"] += 1
+        for res in rec.get("gc") or []:
+            vstat["gc_pass_dropped_file"] += any(x.get("gone") for x in res or [])
+            vstat["gc_pass_reinserted_values"] += any(x.get("err") for x in res or [])
+        if vf.get("gc2") and vf.get("reopen") and any(set(vf["gc2"].get(b, [])) - set(fs) for b, fs in vf["reopen"].items()):
+            vstat["reopen_after_gc_removed_files"] += 1
+        vstat["seal_stage_ran"] += "dump_seal_gc" in rec
     ctx.evidence("fault_enumeration", {
         "evaluations": len(traces), "distinct_nontrivial": len(nontriv),
         "rule": "one evaluation = one (TLC-generated workload, crash point) pair executed on the real engine in child processes; crash points = every mutating "
@@ -347,10 +530,12 @@ def run(ctx):
         "samples": [{"workload": results[0][0], "trace": traces[min(3, len(traces) - 1)]}],
         "states": sum(r.distinct for r in m1), "transitions": sum(r.generated for r in m1), "traces_validated_against_impl": len(traces),
         "crash_points_per_workload": counts, "crash_point_kinds": kinds, "mismatches": len(rejected), "known_finding_hits": hits,
+        "workload_shapes": shapes, "value_log": vstat, "m1_configs": green, "m1_defective_designs_rejected": red,
         "exhaustive": not quick, "negative_control": "rejected as required",
     }, assumptions=["process crash (os.Exit at the crash point): page cache and mmap stores survive, user-space buffers die; power loss is out of scope",
                     "single client, so the acceptance order of batches equals the call order",
-                    "quick tier samples at most %d crash points per workload; thorough runs all of them" % per_wl_cap])
+                    "the recover phase writes filler keys outside the key universe to seal the value-log files before its last GC passes",
+                    "quick tier samples at most %d crash points per generated workload and %d per regression workload; thorough runs all of them" % (per_wl_cap, replay_cap)])
 
 
 if __name__ == "__main__":
